@@ -309,7 +309,8 @@ Qed.
 
 (** * the registry invariants at every node of every reachable state *)
 
-Definition ninv (s : net) : Prop := Forall (fun nd => sinv (n_svc nd)) (nodes s).
+Definition NoX : addr -> nat -> Prop := fun _ _ => False.
+Definition ninv (s : net) : Prop := Forall (fun nd => sinv NoX (n_svc nd)) (nodes s).
 
 Lemma upd_const_Forall {A} (P : A -> Prop) i x l : Forall P l -> P x -> Forall P (upd_nth i (fun _ => x) l).
 Proof. intros H Hx. apply upd_nth_Forall; auto. Qed.
@@ -341,7 +342,7 @@ Proof.
   specialize (IH s1 H1). destruct (run W mk s1 evs) as [s2 tr]. exact IH.
 Qed.
 
-Lemma sinv_empty : sinv svc_empty.
+Lemma sinv_empty X : sinv X svc_empty.
 Proof.
   unfold sinv, heap_ok, conn_ok, gmap_ok; cbn. split; [constructor|]. split; [intros ? ? ? ? []|intros ? ? []].
 Qed.
@@ -373,7 +374,8 @@ Proof.
   intros Hin. pose proof (run_ninv W mk evs _ (ninv_init selfs)) as H.
   unfold ninv in H. rewrite Forall_forall in H. destruct (H _ Hin) as (Hh & Hc & _). split.
   - intros o Ho. unfold heap_ok in Hh. rewrite Forall_forall in Hh. exact (Hh _ Ho).
-  - intros gid o p Hg Hp. apply get_obj_reg in Hg. destruct Hg as (i & Hi & Hn). eapply Hc; eassumption.
+  - intros gid o p Hg Hp. apply get_obj_reg in Hg. destruct Hg as (i & Hi & Hn).
+    destruct (Hc _ _ _ _ Hi Hn Hp) as [H1|[H1|[]]]; auto.
 Qed.
 
 Lemma deliver_once_thm W mk s evs n origin id (t0 : N) :
